@@ -813,8 +813,10 @@ pub fn exec(case: &Case) -> Line {
 
 // ------------------------------------------------------------ generation
 
-const LITS: &[&str] = &["a", "b", "ab", "a b", "%41", "é", "a{b}c", "v1", "."];
-const VARS: &[&str] = &["x", "y", "type"];
+// literals: with letter-case variants of each other, one that equals a variable's name, a prefix pair
+const LITS: &[&str] = &["a", "b", "ab", "a b", "%41", "é", "a{b}c", "v1", ".", "A", "Ab", "x", "É"];
+// variable names: with letter-case variants of each other (two names that differ only in case ARE different names)
+const VARS: &[&str] = &["x", "y", "type", "X", "Type"];
 const METHODS: &[&str] = &["GET", "PUT", "DELETE", "get"];
 
 #[derive(Clone, Debug, PartialEq)]
@@ -917,7 +919,7 @@ fn pct(s: &str, rng: &mut Rng) -> String {
     out
 }
 
-const VALUES: &[&str] = &["a", "b", "zz", "a b", "%41", "é", "x/y", "..", ".", "%", "a%2Fb", "😀", "a{b}c", "v1", "ab"];
+const VALUES: &[&str] = &["a", "b", "zz", "a b", "%41", "é", "x/y", "..", ".", "%", "a%2Fb", "😀", "a{b}c", "v1", "ab", "A", "B", "AB", "aB", "V1", "É", "X"];
 
 fn gen_paths(rng: &mut Rng, tpls: &[Vec<Seg>], n: usize) -> Vec<String> {
     let mut out: Vec<String> = vec!["/".to_string()];
@@ -975,6 +977,12 @@ fn gen_paths(rng: &mut Rng, tpls: &[Vec<Seg>], n: usize) -> Vec<String> {
                 2 if !segs.is_empty() => {
                     let i = rng.below(segs.len());
                     segs[i] = rng.pick(VALUES).to_string();
+                }
+                // a letter-case variant of one segment: a literal matches byte for byte only
+                3 | 4 if !segs.is_empty() => {
+                    let i = rng.below(segs.len());
+                    let flipped = if rng.chance(1, 2) { segs[i].to_uppercase() } else { segs[i].to_lowercase() };
+                    segs[i] = flipped;
                 }
                 _ => {}
             }
